@@ -64,3 +64,13 @@ package sqlite
 //@     ghost called = false
 //@     ghost lastErr error = nil
 //@     after call dynamic returning e : called = true ; lastErr = e
+
+// ------------------------------------------------------------------ C12: the write path's row-lock / existing-row lookup keys
+// two tuples of one request share a lock key only if they agree on all of object type, object id, relation, user
+// object type, user object id, user relation and user type: the de-duplication string joins exactly these seven
+// fields with a separator that occurs in none of them, and the key's fields are the tuple's own parts
+//@ func makeTupleLockKeys$1(tk)
+//@   property C12
+//@   option nosafety
+//@   monitor allFields
+//@     before call strings.Join args parts, sep : assert sep == "\x00" && len(parts) == 7 && parts[0] == tuple.SplitObject(tk.GetObject()).0 && parts[1] == tuple.SplitObject(tk.GetObject()).1 && parts[2] == tk.GetRelation() && parts[3] == tuple.ToUserParts(tk.GetUser()).0 && parts[4] == tuple.ToUserParts(tk.GetUser()).1 && parts[5] == tuple.ToUserParts(tk.GetUser()).2
